@@ -20,6 +20,17 @@ CHECKS = {
              'handlers finished, complete purge, at most one success per cycle in the undisturbed sub-domain) are checked '
              'against an independent reader of the persisted records. Bounded exploration, not a proof.',
         design_ref='5/C02'),
+    'C03': dict(
+        technique='property-based testing: Hypothesis-generated closed-loop histories (edits, graceful restarts, kills before/after an '
+                  'applied write, downtimes with edits, watch latency) against the real operator in virtual time; oracle = bounded-liveness '
+                  'invariants at quiescence (Q1-Q6) computed with an independent essence function and record reader',
+        text='Every case ends with a quiescence phase (operator running, scripted failures exhausted, time advanced by a bound derived '
+             'from the generated delays) followed by a 90 s silent window; then: no writes/handling in the window, last-handled equals '
+             'the final essence, no progress records, every handler of the outstanding change finished against the final state, '
+             'old/new given to update handlers equal the stored/current essence, deleted objects are gone. Three listed known '
+             'findings (A mid-cycle edit, L stale-view purge, M revert-to-handled-state) are identified by executable predicates. '
+             'Bounded liveness, not a proof.',
+        design_ref='5/C03'),
     'C04': dict(
         engine='pure',
         technique='property-based testing: Hypothesis-generated bodies/storage configurations/field paths through kopf\'s own '
